@@ -10,7 +10,8 @@ GradientArborescenceEmitter
 * `gae ask <coeff-row>…` → `ok <row>…` | `err runtime`
 * `gae tell status=<nats> ranking=<nats> weights=<rats> stop=0|1 elite=<row>|none ext=<row>|- sols <row>…`
   → `ok restarted=0|1 np=<k> grad=<row>|- theta=<row>` | `err runtime|index`
-  (`ext` = θ as left by an external optimizer's step; used only with `opt=ext`)
+  (`ext` = θ as left by an external optimizer's step, or `adam1:<lr>:<l2>:<eps'>` for Adam's first step after
+  a reset, which the model computes itself; used only with `opt=ext`)
 * `gae state` → `jac=0|1 itrs= restarts= resets= theta=`
 
 GradientOperatorEmitter
@@ -112,14 +113,20 @@ def gaeStep (st : St) (toks : List String) : St × String :=
     | some status, some ranking, some weights, some stop, some elite, some ext, some sols =>
       let elite? : Option (Option Vec) :=
         if elite = "none" then some none else (parseRow elite).map (fun r => some (ofList r))
+      -- `ext=adam1:<lr>:<l2>:<eps'>` : this is Adam's first step after a reset -> closed form with the L2 term
+      let adam1? : Option (Rat × Rat × Rat) := match ext.splitOn ":" with
+        | ["adam1", lr, l2, e] => do
+          let lr ← parseRat lr; let l2 ← parseRat l2; let e ← parseRat e; pure (lr, l2, e)
+        | _ => none
       let ext? : Option (Option Vec) :=
-        if ext = "-" then some none else (parseRow ext).map (fun r => some (ofList r))
+        if ext = "-" || adam1?.isSome then some none else (parseRow ext).map (fun r => some (ofList r))
       match elite?, ext? with
       | some elite, some ext =>
         let t : Gae.TellIn := ⟨sols.map ofList, status, ranking, ofList weights, stop = "1", elite⟩
-        let c : Gae.Cfg := match st.gc.opt, ext with
-          | .other _, some θ' => { st.gc with opt := .other (fun _ _ => θ') }
-          | _, _ => st.gc
+        let c : Gae.Cfg := match st.gc.opt, ext, adam1? with
+          | .other _, _, some (lr, l2, e) => { st.gc with opt := adamFirst lr l2 e }
+          | .other _, some θ', _ => { st.gc with opt := .other (fun _ _ => θ') }
+          | _, _, _ => st.gc
         let np := numParents c.sel c.batch status
         let grad := if np = 0 then "-" else showVec c.n (Gae.tellGrad st.gs.θ t np)
         match Gae.step c st.gs (.tell t) with
